@@ -314,7 +314,7 @@ def intersect_2lines2D(p1 : Vec, d1 : Vec, p2: Vec, d2 : Vec) -> Vec:
         Vec: the intersection point. None if lines are parallel
     """
     p1,d1,p2,d2 = (u[:2] for u in (p1,d1,p2,d2))
-    if abs(det_2x2(d1,d2))<1e-12 : return None #parallel lines
+    if abs(det_2x2(d1,d2)) <= 1e-12*norm(d1)*norm(d2) : return None #parallel lines (relative test: independent of the unit of length)
     n2 = Vec(d2.y, -d2.x)
     t = dot(p2-p1,n2)/dot(d1,n2)
     return p1+t*d1
